@@ -88,14 +88,18 @@ class Polynomial(Vector):
         obj = Qube.__new__(Vector)
 
         for (key, value) in self.__dict__.items():
+            if key in ('_derivs_', '_cache_') or key.startswith('d_d'):
+                continue
             obj.__dict__[key] = value
 
-        derivs = {}
+        obj._cache_ = {}
+        obj._derivs_ = {}
         if recursive:
             for (key, value) in self._derivs_.items():
-                derivs[key] = self.as_vector(recursive=False)
+                if isinstance(value, Polynomial):
+                    value = value.as_vector(recursive=False)
+                obj.insert_deriv(key, value)
 
-        obj.insert_derivs(derivs)
         return obj
 
     #===========================================================================
